@@ -8,7 +8,7 @@
 From Coq Require Import ZArith List Bool.
 From Cnfgen Require Import Sem Comb Linear IR SemFacts IRFacts C03_Util C03_UtilFacts
   Fam_pebbling Fam_pebbling_Facts Fam_ordering Fam_ordering_Facts Fam_ramsey Fam_ramsey_Facts
-  Fam_cpls Fam_cpls_Facts Fam_pitfall Fam_pitfall_Facts.
+  Fam_cpls Fam_cpls_Facts Fam_pitfall Fam_pitfall_Facts C03_Driver_Facts.
 Import ListNotations.
 Open Scope Z_scope.
 
@@ -221,6 +221,49 @@ Theorem C03_pitfall_spec_unsat : forall n E ny nz k a, 1 <= n -> edges_ok n E = 
   cnf_sat a (pitfall_cnf true n E ny nz k) = false.
 Proof. exact pitfall_spec_unsat. Qed.
 Print Assumptions C03_pitfall_spec_unsat.
+
+(* ================= (6) the functions the driver runs ================= *)
+(* [*_formula] is what is extracted and compared with cnfgen (numvar + builder calls, or the exception
+   class).  Whenever it returns a formula, the CNF rendering and the OPB rendering are BOTH unsatisfiable *)
+Theorem C03_peb_formula : forall D nv f, peb_formula D = C3Ok nv f -> 1 <= len D -> nv = len D /\ both_unsat f.
+Proof. exact peb_formula_unsat. Qed.
+Print Assumptions C03_peb_formula.
+Theorem C03_stone_formula : forall D R nv f, stone_formula D R = C3Ok nv f -> 1 <= len D -> both_unsat f.
+Proof. exact stone_formula_unsat. Qed.
+Print Assumptions C03_stone_formula.
+Theorem C03_sstone_formula : forall D B R nv f, sstone_formula D B R = C3Ok nv f -> 1 <= len D -> 0 <= R -> bip_ok B R = true ->
+  both_unsat f.
+Proof. exact sstone_formula_unsat. Qed.
+Print Assumptions C03_sstone_formula.
+Theorem C03_gop_formula : forall nb total smart knuth nv f, gop_formula nb total smart false knuth = C3Ok nv f ->
+  graph_ok nb = true -> 1 <= len nb -> both_unsat f.
+Proof. exact gop_formula_unsat. Qed.
+Print Assumptions C03_gop_formula.
+Theorem C03_op_formula : forall n total smart knuth nv f, op_formula n total smart false knuth = C3Ok nv f -> 1 <= n -> both_unsat f.
+Proof. exact op_formula_unsat. Qed.
+Print Assumptions C03_op_formula.
+(* the generator itself checks a >= 1 and that b, c are powers of two *)
+Theorem C03_cpls_formula : forall a b c nv f, cpls_formula a b c = C3Ok nv f -> both_unsat f.
+Proof. exact cpls_formula_unsat. Qed.
+Print Assumptions C03_cpls_formula.
+Theorem C03_pitfall_formula : forall validated v d ny nz k E nv f, pitfall_formula true validated v d ny nz k E = C3Ok nv f ->
+  edges_ok v E = true -> 2 <= ny -> both_unsat f.
+Proof. exact pitfall_formula_unsat. Qed.
+Print Assumptions C03_pitfall_formula.
+Theorem C03_vdw_formula : forall N ks nv f a, vdw_spec_formula N ks = C3Ok nv f ->
+  nv = vdw_numvar N ks /\ f = vdw_ir vdw_aps_spec N ks /\ aps_correct vdw_aps_spec N ks /\
+  cnf_sat a (to_cnf f) = irs_hold a f /\ opb_sat a (to_opb f) = irs_hold a f.
+Proof. exact vdw_spec_formula_sem. Qed.
+Print Assumptions C03_vdw_formula.
+Theorem C03_ram_formula : forall s k N nv f a, ram_formula s k N = C3Ok nv f ->
+  nv = ram_numvar N /\ (cnf_sat a (to_cnf f) = true <-> ram_good s k N (fun u v => a (cid N u v))) /\
+  opb_sat a (to_opb f) = cnf_sat a (to_cnf f).
+Proof. exact ram_formula_sem. Qed.
+Print Assumptions C03_ram_formula.
+Theorem C03_ptn_formula : forall N nv f a, ptn_formula N = C3Ok nv f ->
+  nv = N /\ (cnf_sat a (to_cnf f) = true <-> ptn_good N a) /\ opb_sat a (to_opb f) = cnf_sat a (to_cnf f).
+Proof. exact ptn_formula_sem. Qed.
+Print Assumptions C03_ptn_formula.
 
 (* ================= non-vacuity ================= *)
 Example C03_nonvacuous :
